@@ -472,7 +472,7 @@ def main(a):
         # ---- layer L2: the real executable as a process, same plans
         t1 = time.time()
         nl2 = 5000 if thorough else 64
-        l2stats = {"runs": 0, "compared": 0, "agree": 0, "eintr": 0, "readerr_stdin": 0, "readerr_file": 0, "sinkfail": 0, "short_reads": 0, "via_path": 0, "status": {}}
+        l2stats = {"runs": 0, "fifo_runs": 0, "compared": 0, "agree": 0, "eintr": 0, "readerr_stdin": 0, "readerr_file": 0, "sinkfail": 0, "short_reads": 0, "via_path": 0, "status": {}}
         l2viol = {}
         disagreements = []
 
@@ -494,7 +494,13 @@ def main(a):
 
         l2hangs = [0]
 
+        nfifo = counts.get("FIFO", 0)
+        nl2 += nfifo   # every FIFO plan first, then the seeded sample
+
         def orch_dump_cached(r, i):
+            if i < nfifo:
+                lines, _ = orch.command(r.w, "DUMP FIFO 0 %d" % i)
+                return [l[3:] for l in lines if l.startswith("OP ")]
             lines, _ = orch.command(r.w, "DUMP %s %d %d" % ("LIGHT" if i % 2 else "RUNS", a.seed, 1000000 + i))
             return [l[3:] for l in lines if l.startswith("OP ")]
 
@@ -510,6 +516,7 @@ def main(a):
                     l2stats["readerr_file"] += f["readerr"] >= 0 and res["src"] == 1
                     l2stats["sinkfail"] += f["sinkfail_out"] >= 0 or f["sinkfail_err"] >= 0
                     l2stats["via_path"] += res["src"] == 1
+                    l2stats["fifo_runs"] += bool(res.get("fifo"))
                     l2stats["status"][str(res["rc"])] = l2stats["status"].get(str(res["rc"]), 0) + 1
                     s = l2_sig(res)
                     if s:
@@ -656,7 +663,7 @@ def main(a):
                 "fault_kinds_fired": {k[6:]: v for k, v in counters.items() if k.startswith("fault_")},
                 "reach_probes": {k[6:]: v for k, v in counters.items() if k.startswith("probe_")},
                 "exit_status_histogram": {k[7:]: v for k, v in counters.items() if k.startswith("status_")},
-                "layer_L2": dict(l2stats, what="real executable (ASan+UBSan+LSan) as a process with read()/write() shim: short reads, EINTR, EIO, ENOSPC", wall_s=round(t_l2, 1)),
+                "layer_L2": dict(l2stats, what="real executable (ASan+UBSan+LSan) as a process with read()/write() shim: short reads, EINTR, EIO, ENOSPC; stdin as pipe or regular file; named input as regular file or as FIFO fed in pieces with pauses; process environment as in the plan", wall_s=round(t_l2, 1)),
                 "valgrind_sample": vg,
                 "valgrind_in_process": dict(vgin, wall_s=round(t_vgin, 1), what="the program WITHOUT sanitizers executed in-process (same simulated world) under valgrind memcheck, thousands of plans per valgrind process: intact corpus, the curated edge documents, the block presence/rename/clone enumeration, seeded LIGHT and random plans; the first memcheck error ends the worker and is attributed to the run"),
                 "uninitialised_memory_twins": dict(twin, what="runs (intact corpus, LIGHT plans, token replacements on input/example.*) executed in two builds whose uninitialised stack (-ftrivial-auto-var-init=pattern|zero) and fresh heap (ASan malloc_fill_byte) contents differ; outputs compared", wall_s=round(t_twin, 1)),
